@@ -11,6 +11,7 @@ import (
 
 	cose "github.com/veraison/go-cose"
 
+	"verif/refcbor"
 	"verif/refcose"
 	"verif/tape"
 )
@@ -76,7 +77,9 @@ func c16Key(t *tape.Tape) *KeyPair {
 
 func scenarioC16(r *Run) {
 	t := r.T
-	switch t.Pick([]int{4, 3, 5}, "c16.part") {
+	switch t.Pick([]int{4, 3, 5, 2}, "c16.part") {
+	case 3:
+		c16Message(r, t)
 	case 0:
 		c16HSM(r, t)
 	case 1:
@@ -559,4 +562,47 @@ func forgeECKey(t *tape.Tape, curve elliptic.Curve, digest []byte) (*ecdsa.Publi
 		return &ecdsa.PublicKey{Curve: curve, X: qx, Y: qy}, r, s
 	}
 	return nil, nil, nil
+}
+
+// c16Message: the same rule one layer up.  A COSE_Sign1 signed by the foreign
+// peer crosses a format-translating middlebox that re-encodes the signature
+// FIELD (DER, stripped or extended halves); decoded and verified as a
+// message, only the exact fixed-width form passes - whatever a decoder may
+// want to do for such peers.
+func c16Message(r *Run, t *tape.Tape) {
+	k := c16Key(t)
+	ent := NewEntropy(uint64(t.U32("entropy.seed")))
+	spec := genSpec(t, SpecOpts{Kinds: []refcose.Kind{refcose.KSign1Tagged, refcose.KSign1Untagged}, MaxExtra: 2, AlgPresent: 1})
+	spec.Key = k
+	spec.Layer.Prot = append(removeLabel(spec.Layer.Prot, refcose.LAlg), KV{refcbor.Uint(refcose.LAlg), refcbor.Int(k.Alg)})
+	w := r.ForeignWire(t, spec, genKnobs(t), ent, false, 0, false)
+	wire, variant := w.B, "exact"
+	if t.Bool(3, 4, "c16.msg.reencode") {
+		if out, how := reencodeSignatureOnWire(t, w.B); how != "" {
+			wire, variant = out, how
+			r.Fired("sig.reencode." + how)
+		}
+	}
+	name := k.Curve.Params().Name
+	r.Op("DELIVER", "%s signed by the peer (%s, alg %d), signature field: %s", spec.Kind, name, k.Alg, variant)
+	r.Outcome("message/" + name + "/" + variant)
+	rc, err := r.Decode(spec.Kind, wire)
+	if err != nil {
+		r.Outcome("message-refused-at-decode")
+		return
+	}
+	verr := r.VerifyLib(rc, spec.External, r.verifierFor(k, false))
+	ref, perr := RefVerdict(spec.Kind, wire, []*KeyPair{k}, spec.External, nil)
+	r.Check()
+	want := perr == nil && len(ref) == 1 && ref[0].Valid
+	switch {
+	case verr == nil && !want:
+		r.Fail("non-canonical-ecdsa-signature-accepted/message/"+variant+"/"+name, "a %s whose signature field carries the %s form verifies after decoding\nwire: %s", spec.Kind, variant, hexShort(wire))
+	case verr != nil && want:
+		r.Fail("canonical-ecdsa-signature-rejected/message/"+name, "a %s with the exact fixed-width signature does not verify: %v\nwire: %s", spec.Kind, verr, hexShort(wire))
+	}
+	// the decoder hands the signature field on as it came
+	if pm, e := refcose.ParseMsg(spec.Kind, wire); e == nil && pm.Signature != nil && pm.Signature.Major == refcbor.MBstr && rc.M1 != nil && !bytes.Equal(rc.M1.Signature, pm.Signature.Data) {
+		r.Fail("decoder-rewrites-signature-field/"+variant, "the decoded message's Signature differs from the bytes of the signature field on the wire\n wire: %x\ndecoded: %x", pm.Signature.Data, rc.M1.Signature)
+	}
 }
